@@ -10,6 +10,7 @@ import (
 	"bufio"
 	"io"
 	"os"
+	"time"
 
 	"github.com/mimecast/dtail/internal/verifrt"
 )
@@ -40,9 +41,14 @@ type VerifSource struct {
 	Call   int
 	// AtEnd is called when the content is exhausted (tail harnesses cancel the context here).
 	AtEnd func()
+	// Pace: every Read takes this long (a slow disk); virtual time under the engine.
+	Pace time.Duration
 }
 
 func (r *VerifSource) Read(p []byte) (int, error) {
+	if r.Pace > 0 {
+		verifrt.Sleep(r.Pace)
+	}
 	limit := len(p)
 	if r.Chunks != nil {
 		if r.Call < len(r.Chunks) {
